@@ -14,6 +14,8 @@ TIMEOUT = 3000
 
 def generate(rng, tier):
     cs = ebcases.cases(rng, tier)
+    if os.environ.get("EB_THREADS", "1") != "0":
+        cs += ebcases.concurrent_cases(rng, tier)
     if os.environ.get("EB_CORRUPT", "1") != "0":
         streams = ebcases.seed_streams(rng, 10 if tier == "quick" else 40)
         cs += ebcases.corrupt_cases(rng, streams, per_stream=30 if tier == "quick" else 150)
